@@ -96,7 +96,13 @@ impl World {
     }
 
     pub fn log(&self, tid: usize, what: String) {
-        self.lock().log.push(Ev { tid, what });
+        let mut g = self.lock();
+        if g.abort.is_some() {
+            // the run is being torn down: the threads unwind concurrently and what their
+            // destructors do is no longer ordered by the scheduler
+            return;
+        }
+        g.log.push(Ev { tid, what });
     }
 
     /// Draw a non-scheduling decision (fault choice, adversarial callback answer …) from the
